@@ -490,3 +490,13 @@ val fuel_for : token list -> nat
 val parse_tokens : token list -> bool -> str list -> expr res
 
 val parse : str -> bool -> str list -> expr res
+
+val run_clo : z list -> z list
+
+val run_buf : z list -> z list
+
+val run_args : z list -> z list
+
+val run_view : z list -> z list
+
+val run_edit : z list -> z list
